@@ -6,6 +6,7 @@ import GdcVerif.Lemmas.J2kContainer
 import GdcVerif.Lemmas.C16Compose
 import GdcVerif.Lemmas.GolombExact
 import GdcVerif.Lemmas.J2kBodies
+import GdcVerif.Lemmas.J2kLayerSlices
 import GdcVerif.Lemmas.J2kHeaderFields
 /-!
   C16 — every encoded frame is one well-formed, self-describing codestream.
@@ -468,16 +469,66 @@ example : (∀ p ∈ [Piece.header (List.replicate 9 true), Piece.mqSegment 2 [(
     (Piece.header (List.replicate 9 true)).bytes = [255, 64] := by
   refine ⟨by intro p hp; simp at hp; rcases hp with rfl | rfl <;> simp [Piece.Wf], by decide⟩
 
+/-! ## multi-layer bodies: `normalizePassRates` never cuts immediately after an 0xFF byte -/
+
+/-- (28) NORMALISED PASS RATES ARE GOOD CUTS (t1/encoder_layered.go `normalizePassRates`, model `T1.normalizeRates` of C20):
+    for ANY raw per-pass rates and any byte string without two consecutive 0xFF bytes, every cumulative rate the
+    normaliser returns lies inside the stream, is not immediately after an 0xFF byte, and the rates ascend -/
+theorem normalized_rates_not_after_ff (data rates : List Nat) (hd : NoDoubleFF data) :
+    (∀ r ∈ T1.normalizeRates rates data, StrictJ2k.CutOk data r) ∧ (T1.normalizeRates rates data).Pairwise (· ≤ ·) :=
+  normalizeRates_cuts_ok data rates hd
+
+/-- … and MQ output never has two consecutive 0xFF bytes (from C20's stream invariant) -/
+theorem mq_stream_no_double_ff (n : Nat) (ds : List (Nat × Nat)) (hds : ∀ d ∈ ds, d.2 < n) :
+    ∃ bytes, Mqc.encodeBytes n ds = some bytes ∧ NoDoubleFF bytes := by
+  obtain ⟨bytes, h1, h2⟩ := Mqc.encoder_stream n ds hds
+  exact ⟨bytes, h1, streamOk_noDoubleFF bytes h2⟩
+
+/-- (29) J2K LAYER SLICES (was `j2k_layer_slices_FullStatement`): for the byte string of ANY MQ run, ANY raw pass rates,
+    every slice `data[a:b]` whose end point is 0, the stream length or a normalised rate — every slice `finalizeBlock` /
+    `allocateRDLayerData` can form — contains no FF90..FFFF pair and does not end on 0xFF -/
+theorem j2k_layer_slices (n : Nat) (ds : List (Nat × Nat)) (hds : ∀ d ∈ ds, d.2 < n) (rates : List Nat) :
+    ∃ bytes, Mqc.encodeBytes n ds = some bytes ∧
+      ∀ a b, b ∈ 0 :: bytes.length :: T1.normalizeRates rates bytes → StrictJ2k.BodyOk ((bytes.take b).drop a) :=
+  layer_slice_bodyOk n ds hds rates
+
+/-- (30) MULTI-LAYER BODIES MARKER FREE: a tile-part body that is any concatenation of packet headers (bioWriter) and
+    layer slices of MQ streams cut at normalised rates contains no FF90..FFFF pair and does not end on 0xFF -/
+theorem j2k_multilayer_bodies_marker_free (ps : List LPiece) (h : ∀ p ∈ ps, p.Wf) :
+    StrictJ2k.BodyOk (ps.map LPiece.bytes).flatten :=
+  multilayer_body_marker_free ps h
+
+/-- (31) HTJ2K tile-part partition (first loop of `writeHTJ2KTileParts`, model `htPartition`, tied by `c16-ht-partition`):
+    `NumLevels + 1` parts come out, and every part is a concatenation of packet headers and bodies of its resolution, hence
+    marker free as soon as the packets' headers and bodies are -/
+theorem htj2k_partition_parts_marker_free (numLevels : Int) (packets : List (Int × List Nat × List Nat)) (parts : List (List Nat))
+    (h : htPartition numLevels packets = .ok parts)
+    (hp : ∀ p ∈ packets, StrictJ2k.BodyOk p.2.1 ∧ StrictJ2k.BodyOk p.2.2) :
+    parts.length = (numLevels + 1).toNat ∧ ∀ part ∈ parts, StrictJ2k.BodyOk part :=
+  htPartition_bodyOk numLevels packets parts h hp
+
+example : htPartition 1 [(0, [1], [2, 3]), (1, [4], []), (0, [5], [6])] = .ok [[1, 2, 3, 5, 6], [4]] ∧
+    htPartition 1 [(2, [1], [])] = .err := by decide
+
+/-- the unrestricted version of (29) is FALSE, which is why the normaliser is needed (and what seeded change C16-m4
+    removes): a cut immediately after an 0xFF byte gives a slice that ends on 0xFF -/
+theorem layer_slice_arbitrary_cut_counterexample :
+    StrictJ2k.PairBelow 0x90 [0x12, 0xFF, 0x7F, 0x80] ∧ ¬ StrictJ2k.BodyOk (([0x12, 0xFF, 0x7F, 0x80].take 2).drop 0) ∧
+    T1.normalizeRates [2, 4] [0x12, 0xFF, 0x7F, 0x80] = [1, 4] := by
+  refine ⟨by decide, by decide, by decide⟩
+
 /-! ## what is not a theorem here -/
 
-/-- FULL STATEMENT for layered / pass-terminated code-blocks (not proved): with several quality layers (or TERMALL /
-    bypass) one code-block's MQ stream is cut at pass boundaries and the slices go to different packets.  A slice of a
-    marker-free stream is marker free (`StrictJ2k.PairBelow.take/drop`, proved), but that no slice ENDS on 0xFF is a
-    property of the T1 rate computation (pass lengths), which has no model here.  The search checks it on every real
-    stream (strict walker) and, piece by piece, on the `c16-j2k-pieces` lines. -/
-def j2k_layer_slices_FullStatement : Prop :=
-  ∀ (n : Nat) (ds : List (Nat × Nat)) (cuts : List Nat) (bytes : List Nat),
-    Mqc.encodeBytes n ds = some bytes → cuts.Pairwise (· ≤ ·) → (∀ c ∈ cuts, c ≤ bytes.length) →
-    ∀ a b, (a, b) ∈ (0 :: cuts).zip (cuts ++ [bytes.length]) → StrictJ2k.BodyOk ((bytes.take b).drop a)
+/-- FULL STATEMENT over C20's code-shaped model of `EncodeLayered` (all 64 code-block styles, incl. the raw LAZY
+    segments and TERMALL / RESET / PTERM / SEGSYM; not proved): every slice of the block's bytes that ends at 0, at the end or
+    at a returned cumulative rate is marker free and does not end on 0xFF.  (28)–(30) prove it for the bytes of one MQ
+    run cut at normalised rates (style 0, the layered default); for the other styles the missing input is "the byte string
+    has no FF followed by ≥ 0x90 and no two consecutive 0xFF" for streams with restarts / raw segments, and for HTJ2K
+    the HT block coder's segments have no model here.  Searched: strict walker on every real stream, every piece of the
+    `c16-j2k-pieces` lines, and real layered blocks of styles 0/1/2/4/5/8/32 on the `c16-layer-cuts` lines. -/
+def j2k_layered_blocks_all_styles_FullStatement : Prop :=
+  ∀ (w h orient style : Nat) (coeffs : List Int) (numPasses : Nat) (rates : List Nat) (mb : Int) (bytes : List Nat),
+    T1.encodeLayered w h orient style coeffs numPasses = .ok (rates, mb, bytes) →
+    ∀ a b, b ∈ 0 :: bytes.length :: rates → StrictJ2k.BodyOk ((bytes.take b).drop a)
 
 end JpegC
